@@ -69,7 +69,7 @@ theorem availPick_name {ix : List Def} {cimp : Path → String → Bool} {f : Pa
   unfold availPick at h
   simp only at h
   split at h
-  · rename_i d' hf; simp at h; subst h; exact mem_defsOf.mp (List.mem_of_find?_eq_some hf)
+  · rename_i d' hf; simp at h; subst h; exact mem_defsOf.mp (List.mem_filter.mp (maxByLine_mem hf)).1
   · split at h
     · rename_i d' hw; simp at h; subst h; exact mem_defsOf.mp (availWalk_name hw)
     · split at h
@@ -129,22 +129,16 @@ theorem availWalk_eq_walkUp (ds : List Def) (imp : Path → Bool) (dirs : List P
     have : ds.find? (fun _ => true) = ds.head? := by cases ds <;> simp
     rw [this]
 
-/-- **C05 (partial: the view's entry is the one navigation selects).** When a file defines the
-    name at most once and the import test of the view agrees with the resolver's, the entry for
-    `n` is exactly `resolve … n`. -/
+/-- **C05 (the view's entry is the one navigation selects).** For every index, file and name: when
+    the import test of the view agrees with the resolver's (it is the same test since 2cb3f1f), the
+    entry `compute_available_fixtures` keeps for `n` is exactly what `find_closest_definition`
+    resolves `n` to from that file — the last definition in the file itself, else the nearest
+    conftest's own or imported one, else a plugin's, else a third-party one. -/
 theorem C05_pick_is_resolve (ix : List Def) (cimp imp : Path → String → Bool) (f : Path) (n : String)
-    (hsame : ∀ a ∈ ix, ∀ b ∈ ix, a.name = n → b.name = n → a.file = f → b.file = f → a = b)
     (horacle : ∀ c, cimp c n = imp c n) :
     availPick ix cimp f n = resolve ix imp f n := by
   unfold availPick resolve resolveF
   simp only [Bool.and_true]
-  have hu : ∀ a ∈ (defsOf ix n).filter (fun d => d.file == f),
-      ∀ b ∈ (defsOf ix n).filter (fun d => d.file == f), a = b := by
-    intro a ha b hb
-    simp only [List.mem_filter, beq_iff_eq] at ha hb
-    have ma := mem_defsOf.mp ha.1; have mb := mem_defsOf.mp hb.1
-    exact hsame a ma.1 b mb.1 ma.2 mb.2 ha.2 hb.2
-  rw [maxByLine_singleton_or_none hu, List.head?_filter]
   rw [availWalk_eq_walkUp]
   have : (fun c => cimp c n) = (fun c => imp c n) := funext horacle
   rw [this]
@@ -162,21 +156,20 @@ def d1 : Def :=
 def d2 : Def := { d1 with line := 7, endLine := 8 }
 end C05cx
 
-open C05cx in
-/-- **`C05_statement` fails** (E2): a name defined twice in one file — the view lists the first
-    definition, navigation goes to the last (replayed as corpus case `corpus/C05/e2_twice.case`). -/
-theorem C05_statement_false : ¬ C05_statement := by
-  intro h
-  have := h [d1, d2] (fun _ _ => false) ["test_a.py"] "foo"
-  simp [availPick, resolve, resolveF, defsOf, d1, d2, maxByLine] at this
+/-- **`C05_statement` holds** (it failed before 48a0862: a name defined twice in one file — the
+    view listed the first definition, navigation goes to the last; `corpus/C05/e2_twice.case`). -/
+theorem C05_statement_holds : C05_statement :=
+  fun ix imp f n => C05_pick_is_resolve ix imp imp f n (fun _ => rfl)
 
-/-- non-vacuity of `C05_pick_is_resolve`: one definition per file, two files -/
+open C05cx in
+/-- the former counterexample: both now answer the LAST definition -/
+example : availPick [d1, d2] (fun _ _ => false) ["test_a.py"] "foo" = some d2 ∧
+    resolve [d1, d2] (fun _ _ => false) ["test_a.py"] "foo" = some d2 := by
+  constructor <;> simp [availPick, resolve, resolveF, defsOf, d1, d2, maxByLine]
+
+/-- `C05_pick_is_resolve` on two files -/
 example : availPick [C05cx.d1, { C05cx.d1 with file := ["conftest.py"] }] (fun _ _ => false) ["test_a.py"] "foo"
-    = resolve [C05cx.d1, { C05cx.d1 with file := ["conftest.py"] }] (fun _ _ => false) ["test_a.py"] "foo" := by
-  apply C05_pick_is_resolve
-  · intro a ha b hb _ _ hfa hfb
-    simp at ha hb
-    rcases ha with rfl | rfl <;> rcases hb with rfl | rfl <;> simp_all [C05cx.d1]
-  · intro c; rfl
+    = resolve [C05cx.d1, { C05cx.d1 with file := ["conftest.py"] }] (fun _ _ => false) ["test_a.py"] "foo" :=
+  C05_pick_is_resolve _ _ _ _ _ (fun _ => rfl)
 
 end PLS
